@@ -36,7 +36,9 @@ class SMToQua(ConvertBase):
             qua.background_file = sms.background
             qua.title = sms.title
             qua.artist = sms.artist
-            qua.mode = QuaMapMode.get_mode(int(SMMapChartTypes.get_keys(sm.chart_type)))
+            # A chart type without a known key count has no Quaver mode
+            keys = SMMapChartTypes.get_keys(sm.chart_type)
+            qua.mode = QuaMapMode.get_mode(int(keys)) if keys else ""
             qua.audio_file = sms.music
             qua.creator = sms.credit
             qua.difficulty_name = f"{sm.difficulty} {sm.difficulty_val}"
